@@ -759,6 +759,16 @@ func (n *nonNegativeInteger) Apply(key string, value interface{}, ctx *rdf.Parsi
 					).Block(
 						jen.Id("n").Op(":=").Int().Call(jen.Id("i")),
 						jen.If(
+							jen.Float64().Call(jen.Id("n")).Op("!=").Id("i"),
+						).Block(
+							jen.Return(
+								jen.Lit(0),
+								jen.Qual("fmt", "Errorf").Call(
+									jen.Lit("%v is not an integer for xsd:nonNegativeInteger"),
+									jen.Id(codegen.This()),
+								),
+							),
+						).Else().If(
 							jen.Id("n").Op(">=").Lit(0),
 						).Block(
 							jen.Return(
